@@ -418,7 +418,7 @@ Proof. intros ps pg H1 H2 t t' v m. exact (key_private ps pg H1 H2 t t' v m). Qe
 Print Assumptions C20_key_private.
 
 Theorem C20_passthrough_table :
-  length all_uvfn = 32%nat /\
+  length all_uvfn = 34%nat /\
   passthrough UvRwlockRdlock <> passthrough UvRwlockWrlock /\
   passthrough UvRwlockRdlock <> passthrough UvRwlockTryrdlock /\
   passthrough UvRwlockWrlock <> passthrough UvRwlockTrywrlock /\
@@ -428,3 +428,28 @@ Theorem C20_passthrough_table :
   passthrough UvCondWait <> passthrough UvCondTimedwait.
 Proof. exact passthrough_table_facts. Qed.
 Print Assumptions C20_passthrough_table.
+
+(* what the init wrappers ask pthread for (tied to the code by the attribute observations of
+   harness/c20_pass.c, for the NDEBUG and the assert-enabled build) *)
+Theorem C20_init_requests :
+  forall debug arg,
+  init_request debug UvRwlockInit arg = IRwlock PTHREAD_RWLOCK_PREFER_READER /\
+  init_request debug UvCondInit arg = ICond CLOCK_MONOTONIC /\
+  init_request debug UvMutexInitRecursive arg = IMutex PTHREAD_MUTEX_RECURSIVE /\
+  init_request false UvMutexInit arg = IMutex PTHREAD_MUTEX_NORMAL /\
+  init_request true UvMutexInit arg = IMutex PTHREAD_MUTEX_ERRORCHECK /\   (* only where the constant is a macro *)
+  init_request debug UvSemInit arg = ISem 0 arg /\
+  init_request debug UvBarrierInit arg = IBarrier arg.
+Proof. exact init_requests. Qed.
+Print Assumptions C20_init_requests.
+
+(* uv_rwlock_init asks for the reader-preferring kind, hence (given glibc's rule for the
+   kinds, the premise) a lock it made admits a further reader whenever no writer HOLDS it,
+   also while a writer is queued in uv_rwlock_wrlock behind the readers inside *)
+Theorem C20_rwlock_admits_readers_with_writer_queued :
+  forall (admits : Z -> nat -> bool -> nat -> bool),
+  (forall k n w q, admits k n w q =
+     negb w && ((k =? PTHREAD_RWLOCK_PREFER_READER) || Nat.eqb q 0 || Nat.eqb n 0)) ->
+  forall debug n w q, admits (uv_rwlock_kind debug) n w q = negb w.
+Proof. exact rwlock_admits_readers_with_writer_queued. Qed.
+Print Assumptions C20_rwlock_admits_readers_with_writer_queued.
